@@ -220,9 +220,12 @@ DeliveryReadsPayload == \A i \in Idx : log[i].fresh => log[i].read = log[i].sent
 \* during which a listener raised is not taken back
 StoredIsLastAssigned == call.k = "set" => Read(call.t, call.p) = call.last
 
-\* after the call, the last notification a listener received is the value a read returns — unless it is a stale one
+\* after the call, the last notification a listener received is the value a read returns — unless it is a stale one,
+\* or the dispatch of a later (nested) assignment, which would have told the listener again, was cut short by a
+\* raising listener
 LastNotificationIsReadBack ==
-    call.k = "set" => \A l \in Heard : LastOf(l).fresh => LastOf(l).sent = Read(call.t, call.p)
+    call.k = "set" => \A l \in Heard : (LastOf(l).fresh /\ (call.exc => LastOf(l).seq = call.n))
+                                            => LastOf(l).sent = Read(call.t, call.p)
 \* The same without the exception does NOT hold for the code as written (nor for any setter that dispatches
 \* synchronously): a listener that comes after a re-assigning listener in the iteration order is told the outer,
 \* already overwritten value last.  Kept to show the difference (expect_violation run on the intended model).
